@@ -826,7 +826,18 @@ class JinjaTemplater(PythonTemplater):
                     in_str, syntax_tree, undefined_variables
                 ),
             )
-        except (TemplateError, TypeError, ValueError) as err:
+        except (
+            TemplateError,
+            TypeError,
+            ValueError,
+            ArithmeticError,
+            LookupError,
+            AttributeError,
+        ) as err:
+            # NOTE: Expressions in the template are evaluated as python, so
+            # they can also fail like python does, e.g. {{ 1 // 0 }} or
+            # {{ my_dict.pop("missing") }}. That's a problem with the template
+            # (or its context) and is reported like the other failures here.
             # ValueError is caught to handle multi-variable for-loop unpacking
             # failures, e.g. {% for key, val in undefined_var.items() %} raises
             # "not enough values to unpack" because the undefined stub yields
